@@ -9,7 +9,11 @@ pub mod c08;
 pub mod c09;
 pub mod c10;
 pub mod c11;
+pub mod c12;
 pub mod c13;
+pub mod c15;
+pub mod c16;
+pub mod fuzzrun;
 pub mod phys;
 pub mod xproc;
 
@@ -41,5 +45,8 @@ registry! {
     "C09" => c09,
     "C10" => c10,
     "C11" => c11,
+    "C12" => c12,
     "C13" => c13,
+    "C15" => c15,
+    "C16" => c16,
 }
